@@ -612,7 +612,10 @@ def reimport(e, case, path):
     e["k"] += 1
     alias = f"imp{e['k']}"
     importer.import_with_schema(e["s"], io.BytesIO(), alias, schema, {"t": path}, False, {}, {},
-                                str(datetime.now(timezone.utc)), chunk_row_size=100)
+                                str(datetime.now(timezone.utc)), chunk_row_size=1 << 14)
+    # chunk_row_size 1<<14: the importer reads the file in blocks of 2*chunk_row_size*ncols bytes; one block holds every file
+    # generated here. (Across blocks its blank skipping is not applied to a cell that starts a block - the reader's chunk
+    # dependence belongs to C05 - so D30 is stated for the whole-file reader.)
     try:
         d2 = e["s"].get_dataset(alias)["t"]
         cols = []
@@ -657,19 +660,6 @@ def expected_pandas(case):
 def expected_reimport(case):
     names, kinds, rows = expected_csv(case)
     return [[cell_text(kinds[j], r[j]) for r in rows] for j in range(len(names))]
-
-
-def d30_image(case):
-    """what the finding D30 predicts for the re-import: unquoted leading blanks of string cells are gone"""
-    names, kinds, rows = expected_csv(case)
-    out = []
-    for j in range(len(names)):
-        col = []
-        for r in rows:
-            t = cell_text(kinds[j], r[j])
-            col.append(t if needs_quote(t) else t.lstrip(" "))
-        out.append(col)
-    return out
 
 
 def check_spec(case, io_, mode):
@@ -753,7 +743,16 @@ def match_finding(case, io_, mode):
             return "NC18a"
         return None
     ri = io_.get("reimport")
-    if ri and "err" not in ri and ri["cols"] != expected_reimport(case) and ri["cols"] == d30_image(case):
+    if ri and "err" not in ri and ri["cols"] != expected_reimport(case):
+        # D30 exactly: every differing cell is a string cell with leading blanks and nothing that forces quotes, read back without
+        # (some of) them - the importer skips the blanks unless the cell happens to start one of its read blocks
+        want = expected_reimport(case)
+        if len(ri["cols"]) != len(want) or any(len(a) != len(b) for a, b in zip(ri["cols"], want)):
+            return None
+        for a, b in zip(ri["cols"], want):
+            for x, y in zip(a, b):
+                if x != y and not (y.startswith(" ") and not needs_quote(y) and x == y.lstrip(" ")):
+                    return None
         return "D30"
     return None
 
